@@ -124,6 +124,18 @@ def regressions():
     return "\n".join(out) + "\n"
 
 
+def false_alarms():
+    """docs/80_false_alarms.md + the rows of notes/false_alarms/*.md (one file per owner, table rows only)."""
+    base = read("docs/80_false_alarms.md")
+    rows = []
+    for x in sorted(glob.glob(os.path.join(ROOT, "notes", "false_alarms", "*.md"))):
+        rows += [l.rstrip() for l in open(x) if l.startswith("|")]
+    marker = "\nNo check was loosened"
+    if rows and marker in base:
+        i = base.index(marker)
+        base = base[:i].rstrip("\n") + "\n" + "\n".join(rows) + "\n" + base[i:]
+    return base
+
 def main():
     # notes/AS_BUILT.md is assembled from notes/as_built/{00_head,C01..C20,ZZ_tail}.md (each section has one owner)
     secs = sorted(glob.glob(os.path.join(ROOT, "notes", "as_built", "*.md")))
@@ -134,7 +146,7 @@ def main():
     parts = [read("docs/00_head.md").rstrip() + "\n\n" + "## 1. What the technique decides here, and what it cannot\n\n" +
              read("docs/10_technique.md").split("\n", 2)[2] if read("docs/10_technique.md").startswith("## 1") else read("docs/00_head.md") + read("docs/10_technique.md"),
              read("docs/20_architecture.md"), read("docs/30_decision.md"), read("docs/40_trusted.md"), asbuilt,
-             findings(), seeded(), harmless(), regressions(), read("docs/80_false_alarms.md"), read("docs/90_limits.md"), read("docs/95_appendix_probes.md")]
+             findings(), seeded(), harmless(), regressions(), false_alarms(), read("docs/90_limits.md"), read("docs/95_appendix_probes.md")]
     with open(os.path.join(ROOT, "DESIGN.md"), "w") as f:
         f.write(SEP.join(p.rstrip() + "\n" for p in parts))
     print("DESIGN.md", sum(len(p) for p in parts), "bytes")
